@@ -95,7 +95,14 @@ pub fn noise_record(out: &mut Vec<u8>, r: &mut StdRng, own: u16) {
                 let val = { let n_ = pick(r, &[0usize, 0, 0, 1, 3]); rand_bytes(r, n_) };
                 nv(&mut body, nm, &val, r.gen_bool(0.2), r.gen_bool(0.1));
             }
-            if r.gen_bool(0.3) { body.extend([14, 0, b'F', b'C']); }
+            match r.gen_range(0..10) {
+                0..=2 => body.extend([14, 0, b'F', b'C']),
+                // a trailing incomplete pair that reads like a record header (name length 1, value length 200 / 9):
+                // must be ignored with the rest of the body, never framed as a record of its own
+                3 => body.extend([1, 200, 0, 0, 0, 0, 0, 0]),
+                4 => body.extend([1, 9, 0, 0, 0, 0, 0, 0]),
+                _ => {},
+            }
             record(out, r, 9, 0, &body, plen);
         },
         1 => { let ty = loop { let t: u8 = r.gen(); if t == 0 || t > 11 { break t; } }; let n = pick(r, &[0usize, 1, 8, 9, 300]); let b = rand_bytes(r, n); let id = pick(r, &[0u16, own, 77]); record(out, r, ty, id, &b, plen); },
